@@ -25,6 +25,25 @@ def quiet(f):
     return g
 
 
+def plain_rng(f):
+    """run with the library's own generator objects (the recording subclass overrides copying and pickling,
+    which would hide what the library does there)"""
+    from . import recrng
+
+    def g(*a, **k):
+        was = recrng._installed
+        if was:
+            recrng.uninstall()
+        try:
+            return f(*a, **k)
+        finally:
+            if was:
+                recrng.install()
+    g.__name__ = f.__name__
+    g.__doc__ = f.__doc__
+    return g
+
+
 def canon(x):
     """canonical python value of a library result"""
     if isinstance(x, dict):
